@@ -94,7 +94,8 @@ where
             return Ok(());
         }
 
-        let fill_count = core::cmp::min(count, (self.buffer.len() / N) as u32);
+        // compare before narrowing: the buffer may hold 2^32 pixels or more
+        let fill_count = core::cmp::min(u64::from(count), (self.buffer.len() / N) as u64) as u32;
         let filled_len = fill_count as usize * N;
         for chunk in self.buffer[..(filled_len)].chunks_exact_mut(N) {
             let chunk: &mut [u8; N] = chunk.try_into().unwrap();
